@@ -87,6 +87,29 @@ def box_count(n):
     return {1: 12, 2: 1152, 3: 221184}[n]
 
 
+def box3_slice(k, n):
+    """(index, tree) for the 3-leaf trees with index % n == k, in enum_asts(3) order, without building the rest."""
+    one = list(enum_asts(1))
+    two = list(enum_asts(2))
+    blocks = []   # (lefts, rights) per split, as enum_asts(3)
+    for i in (1, 2):
+        blocks.append((one if i == 1 else two, two if i == 1 else one))
+    base = 0
+    for lefts, rights in blocks:
+        per_op = len(lefts) * len(rights) * 4
+        for oi, op in enumerate(("cat", "alt")):
+            start = base + oi * per_op
+            first = start + ((k - start) % n)
+            for idx in range(first, start + per_op, n):
+                j = idx - start
+                m = _MODS[j % 4]
+                r = rights[(j // 4) % len(rights)]
+                l = lefts[j // (4 * len(rights))]
+                node = (op, l, r)
+                yield idx, (node if m is None else (m, node))
+        base += 2 * per_op
+
+
 # ---------------------------------------------------------------------------
 # a Thompson automaton with two-way empty transitions: the historic defect, kept
 # only to MEASURE how many generated cases would expose it (never an oracle)
@@ -407,67 +430,54 @@ def run_box(spec, ctx, Matcher):
     col = ctx.col
     stats = Counter()
     sampled = 0
+    complete = True
     if kind == "box2":
         L = ctx.pick(5, 6)
         pats = list(enum_asts(1)) + list(enum_asts(2))
         pats = pats + [("cat", p, R.EOS) for p in pats]
         todo = [p for i, p in enumerate(pats) if i % n == k]
         for p in todo:
+            if ctx.expired():
+                col.inconclusive = 1
+                complete = False
+                break
             nt = box_pattern(Matcher, p, L, col, stats, True)
-            if nt and sampled < 1 and "alt" in repr(p):
+            if nt and sampled < 1 and k == 0 and "alt" in repr(p):
                 sampled += 1
                 col.sample({"part": "box", "pattern": R.render(p), "sequences": "all of length <= %d over a,b,x" % L,
                             "non_trivial_sequences": nt})
     else:
         L = ctx.pick(3, 4)
-        for i, p in enumerate(enum_asts(3)):
-            if i % n != k:
-                continue
+        for i, p in box3_slice(k, n):
+            if ctx.expired():
+                col.inconclusive = 1
+                complete = False
+                break
             nt = box_pattern(Matcher, p, L, col, stats, False, "re", (i // n) % 8 == 0)
-            if nt and sampled < 1 and i % 977 == k % 977:
+            if nt and sampled < 1 and k == 0 and i > 40000:
                 sampled += 1
                 col.sample({"part": "box", "pattern": R.render(p), "sequences": "all of length <= %d over a,b,x" % L,
                             "non_trivial_sequences": nt})
     for key, v in stats.items():
         col.count(key, v)
-    col.exhaustive = True
+    col.exhaustive = complete   # False only when a --budget deadline cut the enumeration short
 
 
 # ---------------------------------------------------------------------------
 # part 2: generated patterns
 
-SCHEMES = (
-    ("a", "b", "c", "x"),
-    ("aa", "a", "a_1", "a_"),
-    ("sequence_header", "padding_data", "B2", "other_unit"),
-)
-
-
-def ast_strategy(names3):
-    leaf = st.one_of(st.sampled_from([R.sym(n) for n in names3]), st.sampled_from([R.sym(n) for n in names3]),
-                     st.just(R.ANY), st.just(R.EOS))
-
-    def extend(children):
-        return st.one_of(
-            st.tuples(st.just("cat"), children, children),
-            st.tuples(st.just("cat"), children, children),
-            st.tuples(st.just("alt"), children, children),
-            st.tuples(st.just("alt"), children, children),
-            st.tuples(st.sampled_from(["opt", "star", "star", "plus"]), children),
-            st.tuples(st.sampled_from(["opt", "star", "star", "plus"]), children),
-            st.tuples(st.just("alt"), children, st.just(R.EMPTY)),
-        )
-
-    return st.recursive(leaf, extend, max_leaves=8)
+SCHEMES = R.SCHEMES
+sized_tree = R.sized_tree
 
 
 @st.composite
 def generated_cases(draw):
     scheme = draw(st.sampled_from(SCHEMES))
-    tree = draw(ast_strategy(scheme[:3]))
+    n = draw(st.integers(1, 8))
+    tree = draw(sized_tree(scheme[:3], n))
     tree = R.repair_eos(tree, R.sym(scheme[0]))
     rseed = draw(st.integers(0, (1 << 32) - 1))
-    picks = draw(st.lists(st.integers(0, 255), min_size=0, max_size=8))
+    picks = draw(st.lists(st.integers(0, 255), min_size=1, max_size=8))
     return tree, scheme, rseed, picks
 
 
@@ -508,7 +518,7 @@ def evaluate_case(Matcher, text, tree, judge, seq, col, part):
     labels.append("leaves:%d" % R.leaves(tree) if R.leaves(tree) < 9 else "leaves:9+")
     nontrivial = R.has_operator(tree) and len(seq) >= 2 and len(acc) >= 1
     col.case(key=(part, text, seq), nontrivial=nontrivial, labels=labels,
-             sample=lambda: {"part": part, "pattern": text, "sequence": list(seq), "accepted": list(acc),
+             sample=None if col._nt_samples >= 2 else lambda: {"part": part, "pattern": text, "sequence": list(seq), "accepted": list(acc),
                              "complete_at_end": judge.info(acc)[0],
                              "separates_bidirectional_epsilon_model": sep})
 
@@ -581,10 +591,11 @@ def parse_code_names():
 
 
 def shards(tier):
-    out = [("box3", k, 64) for k in range(64)]
-    out += [("box2", k, 8) for k in range(8)]
-    out += [("hyp", k, 12) for k in range(12)]
+    # cheap and diverse parts first: with --budget the 3-leaf box is what gets cut short
+    out = [("hyp", k, 12) for k in range(12)]
     out += [("real", k, 4) for k in range(4)]
+    out += [("box2", k, 8) for k in range(8)]
+    out += [("box3", k, 64) for k in range(64)]
     return out
 
 
@@ -603,7 +614,7 @@ def run_shard(spec, ctx):
             seq = walk(judge, scheme, picks)
             evaluate_case(Matcher, text, tree, judge, seq, col, "generated")
 
-        run_given(generated_cases(), body, ctx, ctx.pick(450, 17000))
+        run_given(generated_cases(), body, ctx, ctx.pick(1500, 17000))
     else:
         pats = real_patterns()
         names = parse_code_names()
@@ -623,8 +634,11 @@ def run_shard(spec, ctx):
             seq = walk(judge, names, picks)
             evaluate_case(Matcher, text, tree, judge, seq, col, "real")
 
-        strat = st.tuples(st.integers(0, len(usable) - 1), st.lists(st.integers(0, 255), min_size=0, max_size=12))
-        run_given(strat, body, ctx, ctx.pick(500, 12000))
+        # the longest pattern (levels 1-7) gets three tickets, every other pattern one
+        longest = max(range(len(usable)), key=lambda i: R.leaves(usable[i][2]))
+        tickets = list(range(len(usable))) + [longest, longest]
+        strat = st.tuples(st.sampled_from(tickets), st.lists(st.integers(0, 255), min_size=1, max_size=12))
+        run_given(strat, body, ctx, ctx.pick(1500, 12000))
 
 
 def replay(data, col):
